@@ -46,3 +46,12 @@ package autofile
 //@   modifies *
 //@   atcall Rename requires [headFlushedAndSyncedBeforeItMoves] called(Writer.Flush) && called(AutoFile.Sync) && called(AutoFile.closeFile) && oldpath == headPath && newpath == indexPath
 //@   atcall filePathForIndex requires [headBecomesFileMaxIndex] index == g.maxIndex && maxIndex == toInt64(g.maxIndex + 1)
+
+// A reader's cursor moves only when the file was actually opened: probing past the end (io.EOF) leaves it
+// where it was, so that after a later rotation the reader continues with the file that really follows.
+//@ func (gr *GroupReader) openFile(index int) (err error)
+//@   for C15
+//@   requires gr != nil && gr.Group != nil && gr.Head != nil
+//@   modifies *
+//@   opt assumecallreqs
+//@   atstore GroupReader.curIndex requires [cursorMovesOnlyToAnOpenedFile] new == index && called(OpenFile) && result(OpenFile, 1) == nil
